@@ -86,7 +86,29 @@ func RunStepBound(cfg core.Config, scope core.Scope) *core.Result {
 					res.Count("loops_stepping_by_an_increment", 1)
 					step := types.ExprString(post.Rhs[0])
 					okBound := false
-					ast.Inspect(cond.Y, func(m ast.Node) bool {
+					bound := cond.Y
+					// `end := n * inc; for i := 0; i < end; i += inc`
+					if id, ok := ast.Unparen(bound).(*ast.Ident); ok {
+						if o := core.ObjOf(info, id); o != nil {
+							cnt := 0
+							var def ast.Expr
+							ast.Inspect(fd.Body, func(k ast.Node) bool {
+								if a, ok := k.(*ast.AssignStmt); ok && len(a.Lhs) == len(a.Rhs) {
+									for i, l := range a.Lhs {
+										if lid, ok := l.(*ast.Ident); ok && core.ObjOf(info, lid) == o {
+											cnt++
+											def = a.Rhs[i]
+										}
+									}
+								}
+								return true
+							})
+							if cnt == 1 && def != nil {
+								bound = def
+							}
+						}
+					}
+					ast.Inspect(bound, func(m ast.Node) bool {
 						switch x := m.(type) {
 						case *ast.CallExpr:
 							if id, ok := x.Fun.(*ast.Ident); ok && id.Name == "len" {
